@@ -175,10 +175,15 @@ def judge(pre, op, post, res, obs, meta):
     if obs and obs.get("audit") is not None and "meta_pre" in obs:
         order = []
         for ev in obs["audit"]:
-            if ev[0] == "open_w" and ev[1].endswith(".mhl"):
-                rel = ev[1][len(obs["root"]) + 1:] if ev[1].startswith(obs["root"] + "/") else None
+            # the manifest may be written under a temporary name first: the order is that of the first write-open of
+            # the manifest or of its temporary twin
+            pth = ev[1][:-4] if isinstance(ev[1], str) and ev[1].endswith(".tmp") else ev[1]
+            if ev[0] == "open_w" and pth.endswith(".mhl"):
+                rel = pth[len(obs["root"]) + 1:] if pth.startswith(obs["root"] + "/") else None
                 if rel and rel not in order:
                     order.append(rel)
+        if newm and not order:
+            V("commit-order-unobservable", f"no write-open of any new manifest was observed (audit: {obs['audit'][:4]})")
         pos = {p: i for i, p in enumerate(order)}
         for hr, (mp, m, _) in newm.items():
             par = hroot_local(hr, True) if hr != R else None
